@@ -549,4 +549,191 @@ theorem nodes_bytes (withErr : Bool) (ns : List PbNode) (h : ∀ n ∈ ns, PbNod
   rw [decNodesRequest_fields withErr ns (fun n hn => (h n hn).1) []]
   simp
 
+/-! ### serial points (the MCU link) -/
+def optF32 (num : Nat) (v : Nat) : List Field := if v = 0 then [] else [(num, .fixed32 v)]
+
+theorem encFixed32NZ_eq (num : Nat) (v : Nat) : encFixed32NZ num v = encFields (optF32 num v) := by
+  unfold encFixed32NZ optF32
+  split <;> simp [encFields, encField]
+
+theorem optF32_ok (num : Nat) (v : Nat) (hn : 1 ≤ num ∧ num ≤ 536870911) (hv : v < 4294967296) :
+    ∀ f ∈ optF32 num v, FieldOk f := by
+  intro f hf
+  unfold optF32 at hf
+  split at hf
+  · cases hf
+  · simp only [List.mem_singleton] at hf; subst hf; exact ⟨hn.1, hn.2, hv⟩
+
+def fieldsOfSerial (p : PbSerialPoint) : List Field :=
+  optLen 2 p.type ++ (optF32 4 p.value ++ (optLen 8 p.text ++ (optLen 11 p.key ++ (optInt 12 p.tombstone ++
+    (optLen 14 p.data ++ (optLen 15 p.origin ++ optInt 16 p.time))))))
+
+theorem encSerialPoint_eq (p : PbSerialPoint) : encSerialPoint p = encFields (fieldsOfSerial p) := by
+  unfold encSerialPoint fieldsOfSerial
+  simp only [encFields_append, encLenNZ_eq, encFixed32NZ_eq, encIntNZ_eq, List.append_assoc]
+
+structure PbSerialOk (p : PbSerialPoint) : Prop where
+  type : utf8Valid p.type = true
+  text : utf8Valid p.text = true
+  key : utf8Valid p.key = true
+  origin : utf8Valid p.origin = true
+  value : p.value < 4294967296
+  tomb : Int32 p.tombstone
+  time : Int64 p.time
+  lens : p.type.length < 18446744073709551616 ∧ p.text.length < 18446744073709551616 ∧ p.key.length < 18446744073709551616 ∧
+         p.origin.length < 18446744073709551616 ∧ p.data.length < 18446744073709551616
+
+theorem fieldsOfSerial_ok (p : PbSerialPoint) (h : PbSerialOk p) : ∀ f ∈ fieldsOfSerial p, FieldOk f := by
+  intro f hf
+  obtain ⟨l1, l2, l3, l4, l5⟩ := h.lens
+  simp only [fieldsOfSerial, List.mem_append] at hf
+  rcases hf with hf | hf | hf | hf | hf | hf | hf | hf
+  · exact optLen_ok 2 _ (by decide) l1 f hf
+  · exact optF32_ok 4 _ (by decide) h.value f hf
+  · exact optLen_ok 8 _ (by decide) l2 f hf
+  · exact optLen_ok 11 _ (by decide) l3 f hf
+  · exact optInt_ok 12 _ (by decide) f hf
+  · exact optLen_ok 14 _ (by decide) l5 f hf
+  · exact optLen_ok 15 _ (by decide) l4 f hf
+  · exact optInt_ok 16 _ (by decide) f hf
+
+theorem decSerial_optLen2 (acc : PbSerialPoint) (s : Bytes) (hs : utf8Valid s = true) (h0 : acc.type = []) (rest : List Field) :
+    decSerialPoint acc (optLen 2 s ++ rest) = decSerialPoint { acc with type := s } rest := by
+  unfold optLen
+  split
+  · rename_i he
+    have : s = [] := by simpa using he
+    subst this
+    simp only [List.nil_append]
+    congr 1
+    cases acc; simp_all
+  · simp [decSerialPoint, str_valid s hs]
+
+theorem decSerial_optF32 (acc : PbSerialPoint) (v : Nat) (h0 : acc.value = 0) (rest : List Field) :
+    decSerialPoint acc (optF32 4 v ++ rest) = decSerialPoint { acc with value := v } rest := by
+  unfold optF32
+  split
+  · rename_i he
+    subst he
+    simp only [List.nil_append]
+    congr 1
+    cases acc; simp_all
+  · simp [decSerialPoint]
+
+theorem decSerial_optLen8 (acc : PbSerialPoint) (s : Bytes) (hs : utf8Valid s = true) (h0 : acc.text = []) (rest : List Field) :
+    decSerialPoint acc (optLen 8 s ++ rest) = decSerialPoint { acc with text := s } rest := by
+  unfold optLen
+  split
+  · rename_i he
+    have : s = [] := by simpa using he
+    subst this
+    simp only [List.nil_append]
+    congr 1
+    cases acc; simp_all
+  · simp [decSerialPoint, str_valid s hs]
+
+theorem decSerial_optLen11 (acc : PbSerialPoint) (s : Bytes) (hs : utf8Valid s = true) (h0 : acc.key = []) (rest : List Field) :
+    decSerialPoint acc (optLen 11 s ++ rest) = decSerialPoint { acc with key := s } rest := by
+  unfold optLen
+  split
+  · rename_i he
+    have : s = [] := by simpa using he
+    subst this
+    simp only [List.nil_append]
+    congr 1
+    cases acc; simp_all
+  · simp [decSerialPoint, str_valid s hs]
+
+theorem decSerial_optInt12 (acc : PbSerialPoint) (i : Int) (hi : Int32 i) (h0 : acc.tombstone = 0) (rest : List Field) :
+    decSerialPoint acc (optInt 12 i ++ rest) = decSerialPoint { acc with tombstone := i } rest := by
+  unfold optInt
+  split
+  · rename_i he
+    subst he
+    simp only [List.nil_append]
+    congr 1
+    cases acc; simp_all
+  · simp [decSerialPoint, toInt32_ofInt64 i hi]
+
+theorem decSerial_optLen14 (acc : PbSerialPoint) (s : Bytes) (h0 : acc.data = []) (rest : List Field) :
+    decSerialPoint acc (optLen 14 s ++ rest) = decSerialPoint { acc with data := s } rest := by
+  unfold optLen
+  split
+  · rename_i he
+    have : s = [] := by simpa using he
+    subst this
+    simp only [List.nil_append]
+    congr 1
+    cases acc; simp_all
+  · simp [decSerialPoint]
+
+theorem decSerial_optLen15 (acc : PbSerialPoint) (s : Bytes) (hs : utf8Valid s = true) (h0 : acc.origin = []) (rest : List Field) :
+    decSerialPoint acc (optLen 15 s ++ rest) = decSerialPoint { acc with origin := s } rest := by
+  unfold optLen
+  split
+  · rename_i he
+    have : s = [] := by simpa using he
+    subst this
+    simp only [List.nil_append]
+    congr 1
+    cases acc; simp_all
+  · simp [decSerialPoint, str_valid s hs]
+
+theorem decSerial_optInt16 (acc : PbSerialPoint) (i : Int) (hi : Int64 i) (h0 : acc.time = 0) :
+    decSerialPoint acc (optInt 16 i) = decSerialPoint { acc with time := i } [] := by
+  unfold optInt
+  split
+  · rename_i he
+    subst he
+    congr 1
+    cases acc; simp_all
+  · simp [decSerialPoint, toInt64_ofInt64 i hi]
+
+theorem decSerial_fields (p : PbSerialPoint) (h : PbSerialOk p) : decSerialPoint {} (fieldsOfSerial p) = some p := by
+  unfold fieldsOfSerial
+  rw [decSerial_optLen2 _ _ h.type rfl, decSerial_optF32 _ _ rfl, decSerial_optLen8 _ _ h.text rfl,
+    decSerial_optLen11 _ _ h.key rfl, decSerial_optInt12 _ _ h.tomb rfl, decSerial_optLen14 _ _ rfl,
+    decSerial_optLen15 _ _ h.origin rfl, decSerial_optInt16 _ _ h.time rfl]
+  simp only [decSerialPoint]
+
+/-- **the bytes of a serial point decode to the serial point** -/
+theorem serial_bytes (p : PbSerialPoint) (h : PbSerialOk p) : (parse (encSerialPoint p)).bind (decSerialPoint {}) = some p := by
+  rw [encSerialPoint_eq, parse_encFields _ (fieldsOfSerial_ok p h)]
+  exact decSerial_fields p h
+
+def serialFields (qs : List PbSerialPoint) : List Field := qs.map (fun q => (1, .len (encSerialPoint q)))
+
+theorem encSerialPoints_eq (qs : List PbSerialPoint) : encSerialPoints qs = encFields (serialFields qs) := by
+  unfold encSerialPoints
+  induction qs with
+  | nil => rfl
+  | cons q qs ih =>
+    show encLen 1 (encSerialPoint q) ++ qs.flatMap (fun p => encLen 1 (encSerialPoint p)) =
+      encField (1, .len (encSerialPoint q)) ++ encFields (serialFields qs)
+    rw [ih]; rfl
+
+theorem decSerialPoints_fields (qs : List PbSerialPoint) (h : ∀ q ∈ qs, PbSerialOk q) (acc : List PbSerialPoint) :
+    decSerialPoints acc (serialFields qs) = some (acc ++ qs) := by
+  induction qs generalizing acc with
+  | nil => simp [serialFields, decSerialPoints]
+  | cons q qs ih =>
+    have hq := serial_bytes q (h q (by simp))
+    have := ih (fun x hx => h x (by simp [hx])) (acc ++ [q])
+    simp only [serialFields] at this
+    simp only [serialFields, List.map_cons, decSerialPoints, hq, Option.bind_some, this, List.append_assoc,
+      List.cons_append, List.nil_append]
+
+/-- **the bytes of a `SerialPoints` message decode to the serial points** (each point's encoding below 2^64 bytes) -/
+theorem serial_points_bytes (qs : List PbSerialPoint)
+    (h : ∀ q ∈ qs, PbSerialOk q ∧ (encSerialPoint q).length < 18446744073709551616) :
+    (parse (encSerialPoints qs)).bind (decSerialPoints []) = some qs := by
+  rw [encSerialPoints_eq, parse_encFields _ (by
+    intro f hf
+    simp only [serialFields, List.mem_map] at hf
+    obtain ⟨q, hq, rfl⟩ := hf
+    exact ⟨by decide, by decide, (h q hq).2⟩)]
+  simp only [Option.bind_some]
+  rw [decSerialPoints_fields qs (fun q hq => (h q hq).1) []]
+  simp
+
 end Siot.Pb
